@@ -188,7 +188,7 @@ def url_corpus():
                 for port in ("", ":80", ":0", ":443", ":8080", ":65535"):
                     netloc = ui + host + port
                     for path in ("", "/", "/a/b", "a", "/a%20b/c.txt", "/a/"):
-                        for q in ("", "q=1"):
+                        for q in ("", "q=1", "a=1;", "a=1&"):
                             for f in ("", "f"):
                                 if netloc and path and not path.startswith("/"):
                                     continue
@@ -303,8 +303,8 @@ def search(contract, seed_inputs, budget=60000, seed=0):
         own = own_literals(contract)
         if 0 < len(own) <= 3:
             # few significant characters: enumerate longer strings over them and one letter
-            small2 = own + ["a"]
-            for L in range(0, 8):
+            small2 = own + [c for c in ("a", ".", "%") if c not in own][:5 - len(own)]
+            for L in range(0, 8 if len(small2) <= 4 else 7):
                 for tup in itertools.product(small2, repeat=L):
                     cand = dict(base)
                     cand[n] = "".join(tup)
